@@ -1,40 +1,564 @@
+// C18: a transaction stays on one master connection per slice.
+//
+// Engine: xstate (BFS over command histories, every history replayed on a FRESH real
+// server.Manager / Namespace / Session running the real Session.Run loop) on the session rig
+// /verif/ref/sessrig (fake connection pools with a per-connection ledger).
+//
+// Alphabet (design C18): BEGIN, START TRANSACTION, COMMIT, ROLLBACK, SET autocommit=0/1,
+// SAVEPOINT a, ROLLBACK TO a, unsharded read / write / SELECT..FOR UPDATE (default slice),
+// sharded read / write on slices {0,1}, sharded write on slice 1 only, and a second session
+// issuing autocommit writes (default slice / both slices) between any two steps.
+// Configurations: user with / without read-write splitting x keep-session off / on.
+//
+// Oracle = a monitor over the ledger, written from the client's point of view with MySQL's
+// transaction semantics (see type monitor).
 package main
 
 import (
 	"fmt"
-	"os"
-	"runtime/pprof"
+	"sort"
+	"strings"
+	"sync"
 	"time"
 
+	"verif/engine/ev"
 	"verif/engine/gx"
+	"verif/engine/xstate"
 	"verif/ref/sessrig"
 )
 
+// ---- alphabet ----
+
+var sqlOf = map[string]string{
+	"BEGIN":    "begin",
+	"START":    "start transaction",
+	"COMMIT":   "commit",
+	"ROLLBACK": "rollback",
+	"AC0":      "set autocommit=0",
+	"AC1":      "set autocommit=1",
+	"SP":       "savepoint a",
+	"RBTO":     "rollback to a",
+	"R0":       "select * from t1 where id=1",
+	"W0":       "update t1 set a=1 where id=1",
+	"FU":       "select * from t1 where id=1 for update",
+	"RS":       "select * from tbl_ks",
+	"WS":       "update tbl_ks set a=1",
+	"W1":       "update tbl_ks set a=1 where id=1",
+	"B:W0":     "update t1 set a=2 where id=2",
+	"B:WS":     "update tbl_ks set a=2",
+}
+
+var alphabet = []string{"BEGIN", "START", "COMMIT", "ROLLBACK", "AC0", "AC1", "SP", "RBTO", "R0", "W0", "FU", "RS", "WS", "W1", "B:W0", "B:WS"}
+
+type config struct {
+	User string `json:"user"`
+	KS   bool   `json:"keep_session"`
+}
+
+func (c config) String() string { return fmt.Sprintf("user=%s,ks=%v", c.User, c.KS) }
+
+type kase struct {
+	Cfg  config   `json:"cfg"`
+	Hist []string `json:"hist"`
+}
+
+// ---- monitor ----
+
+// monitor is the oracle. It tracks the CLIENT's view of the transaction with MySQL's rules:
+//
+//	open()  <=>  inside BEGIN/START TRANSACTION ... COMMIT/ROLLBACK, or autocommit = 0
+//	COMMIT / ROLLBACK end the transaction (under autocommit=0 the next one starts at once)
+//	SET autocommit=1 while autocommit=0 is an implicit COMMIT; while autocommit is already 1
+//	    it is a no-op, so a transaction opened with BEGIN stays open (MySQL: sys_vars.cc
+//	    fix_autocommit only commits when the mode actually flips)
+//	BEGIN inside an open transaction commits it implicitly and opens the next one; the
+//	    monitor does not demand a release there (the statement names only COMMIT/ROLLBACK)
+//	    and keeps the connection set, which is what the implementation does.
+//
+// While open(), every backend call of the session must be on a master connection and on the
+// SAME lease per slice (epoch); leases must not be returned before the transaction ends.
+// At COMMIT/ROLLBACK the commit/rollback call must reach exactly the epoch's leases
+// (keep-session: at least those, and only connections pinned by this session), afterwards
+// they are released (keep-session: kept).
+type monitor struct {
+	ks       bool
+	ac       bool
+	explicit bool
+	epoch    map[string]int // slice -> lease
+	// after names an earlier event of the CURRENT transaction after which the proxy is known
+	// to have left transaction mode although the client's transaction is still open (only
+	// "AC1_in_explicit_tx": SET autocommit=1 inside a BEGIN block with autocommit already 1).
+	// It is reported as a feature so that the consequences of that one mechanism can be told
+	// apart from any other violation.
+	after  string
+	leases *sessrig.Leases
+}
+
+func (m *monitor) open() bool { return m.explicit || !m.ac }
+
+type violation struct {
+	msg  string
+	feat map[string]string
+}
+
+func phaseOf(m *monitor) string {
+	switch {
+	case m.explicit && m.ac:
+		return "explicit_tx_autocommit_on"
+	case m.explicit && !m.ac:
+		return "explicit_tx_autocommit_off"
+	case !m.ac:
+		return "autocommit_off"
+	}
+	return "autocommit_on"
+}
+
+// step evaluates one command of session A. entries = ledger entries of this step.
+func (m *monitor) step(op string, resp sessrig.Resp, entries []sessrig.Entry, heldByA map[int]bool) *violation {
+	phase := phaseOf(m)
+	mk := func(kind, format string, a ...interface{}) *violation {
+		return &violation{msg: fmt.Sprintf("%s at %s (%s, after=%s): ", kind, op, phase, m.after) + fmt.Sprintf(format, a...),
+			feat: map[string]string{"kind": kind, "event": op, "phase": phase, "ks": fmt.Sprint(m.ks), "after": m.after}}
+	}
+	wasOpen := m.open()
+	if op == "AC1" && m.ac && m.explicit {
+		m.after = "AC1_in_explicit_tx"
+	}
+	ending := ""
+	switch op {
+	case "COMMIT":
+		ending = "commit"
+	case "ROLLBACK":
+		ending = "rollback"
+	case "AC1":
+		if !m.ac {
+			ending = "set_autocommit"
+		}
+	}
+	// the transaction state that applies to the backend calls of this step
+	inTx := wasOpen
+	if op == "BEGIN" || op == "START" || op == "AC0" {
+		inTx = true
+	}
+	// per connection, deterministic order
+	by := map[int][]sessrig.Entry{}
+	var ids []int
+	for _, e := range entries {
+		if e.Actor != "A" || e.Conn == 0 {
+			continue
+		}
+		if _, ok := by[e.Conn]; !ok {
+			ids = append(ids, e.Conn)
+		}
+		by[e.Conn] = append(by[e.Conn], e)
+	}
+	// deterministic order that does not depend on connection numbering
+	sort.Slice(ids, func(i, j int) bool {
+		a, b := by[ids[i]][0], by[ids[j]][0]
+		if a.Pool != b.Pool {
+			return a.Pool < b.Pool
+		}
+		return ids[i] < ids[j]
+	})
+	ended := map[int]bool{}    // lease -> received the terminating call
+	released := map[int]bool{} // lease -> released in this step
+	for _, id := range ids {
+		for _, e := range by[id] {
+			switch e.Op {
+			case "recycle":
+				released[e.Lease] = true
+				if !inTx {
+					continue
+				}
+				inEpoch := m.epoch[e.Slice] == e.Lease
+				if !inEpoch {
+					continue
+				}
+				if ending == "" {
+					return mk("released_in_tx", "the connection (%s) of the open transaction was given back to the pool before COMMIT/ROLLBACK", e.Pool)
+				}
+				if m.ks {
+					return mk("ks_released_at_end", "keep-session connection (%s) was given back at the end of the transaction", e.Pool)
+				}
+				if !ended[e.Lease] {
+					return mk("released_before_end_call", "connection (%s) was given back before %s reached it", e.Pool, ending)
+				}
+			case "close", "pool_rollback", "pool_autocommit":
+			default:
+				if !inTx {
+					continue
+				}
+				if e.Role != "master" {
+					return mk("replica_in_tx", "%s on a replica connection (%s) inside a transaction", e.Op, e.Pool)
+				}
+				if l, ok := m.epoch[e.Slice]; ok && l != e.Lease {
+					return mk("second_connection", "%s for %s ran on another connection than the one the transaction already uses for that slice (%s)", e.Op, e.Slice, e.Pool)
+				}
+				m.epoch[e.Slice] = e.Lease
+				if ending != "" && e.Op == ending && e.Res == "ok" {
+					if ending != "set_autocommit" || e.Arg == "1" {
+						if ended[e.Lease] {
+							return mk("end_call_twice", "%s sent twice to a connection of %s", ending, e.Pool)
+						}
+						ended[e.Lease] = true
+					}
+				}
+			}
+		}
+	}
+	if resp.Kind == "err" {
+		// fault-free universe: the proxy has no reason to refuse any command of the alphabet
+		return mk("unexpected_error", "client got error %d %s", resp.ErrCode, resp.ErrMsg)
+	}
+	if ending != "" {
+		need := map[int]bool{}
+		for _, l := range m.epoch {
+			need[l] = true
+		}
+		for l := range need {
+			if !ended[l] {
+				return mk("end_call_missing", "%s did not reach lease %d of the transaction", ending, l)
+			}
+			if !m.ks && !released[l] {
+				return mk("not_released_at_end", "lease %d still held after %s", l, ending)
+			}
+		}
+		for l := range ended {
+			if need[l] {
+				continue
+			}
+			if !m.ks {
+				return mk("end_call_extra", "%s sent to lease %d which the transaction never used", ending, l)
+			}
+			if !heldByA[l] {
+				return mk("end_call_extra", "%s sent to lease %d which this session does not hold", ending, l)
+			}
+		}
+	}
+	// advance the client's view
+	switch op {
+	case "BEGIN", "START":
+		m.explicit = true
+	case "COMMIT", "ROLLBACK":
+		m.explicit = false
+		m.epoch = map[string]int{}
+		m.after = ""
+	case "AC0":
+		m.ac = false
+	case "AC1":
+		if !m.ac {
+			m.explicit = false
+			m.epoch = map[string]int{}
+			m.after = ""
+		}
+		m.ac = true
+	}
+	if !m.open() {
+		m.epoch = map[string]int{}
+		m.after = ""
+	}
+	return nil
+}
+
+// ---- replay ----
+
+type stepTrace struct {
+	Op   string   `json:"op"`
+	Resp string   `json:"resp"`
+	Led  []string `json:"ledger,omitempty"`
+}
+
+type outcome struct {
+	res    xstate.Result
+	trace  []stepTrace
+	facts  []string
+	ledger []string
+}
+
+func replay(cfg config, hist []string, wantTrace bool) outcome {
+	w, err := sessrig.New(sessrig.Config{KeepSession: cfg.KS})
+	if err != nil {
+		ev.Fatalf("sessrig.New: %v", err)
+	}
+	defer w.Close()
+	a := w.NewSession("A", cfg.User)
+	var b *sessrig.Sess
+	m := &monitor{ks: cfg.KS, ac: true, epoch: map[string]int{}, leases: sessrig.NewLeases()}
+	var out outcome
+	everA := map[int]bool{} // connection ids ever leased by A
+	last := ""
+	for i, op := range hist {
+		var resp sessrig.Resp
+		actor := "A"
+		if strings.HasPrefix(op, "B:") {
+			if b == nil {
+				b = w.NewSession("B", sessrig.UserRW)
+			}
+			actor = "B"
+			resp = b.Query(sqlOf[op])
+		} else {
+			resp = a.Query(sqlOf[op])
+		}
+		led := w.Ledger()
+		step := w.Step()
+		var entries []sessrig.Entry
+		for _, e := range led {
+			if e.Step == step {
+				entries = append(entries, e)
+			}
+		}
+		if wantTrace {
+			out.trace = append(out.trace, stepTrace{Op: op, Resp: resp.Kind, Led: sessrig.Describe(entries)})
+		}
+		// ledger-level contract
+		if br := m.leases.Feed(led); len(br) > 0 {
+			out.res.Violation = fmt.Sprintf("step %d %s: %s", i, op, br[0])
+			out.res.Features = map[string]string{"kind": br[0].Kind, "event": op, "phase": phaseOf(m), "ks": fmt.Sprint(cfg.KS), "after": m.after}
+			return out
+		}
+		if resp.Ended || resp.Kind == "gone" || resp.Kind == "none" {
+			out.res.Violation = fmt.Sprintf("step %d %s: session ended / no answer (%+v)", i, op, resp)
+			out.res.Features = map[string]string{"kind": "session_ended", "event": op, "phase": phaseOf(m), "ks": fmt.Sprint(cfg.KS), "after": m.after}
+			return out
+		}
+		held := map[int]bool{}
+		for _, c := range w.Outstanding() {
+			if c.Holder == "A" {
+				held[c.Lease] = true
+			}
+		}
+		for _, e := range entries {
+			if e.Op == "get" && e.Res == "ok" {
+				if e.Actor == "A" {
+					everA[e.Conn] = true
+					if e.Role == "slave" && !m.open() {
+						out.facts = append(out.facts, "replica_read_outside_tx")
+					}
+				} else if everA[e.Conn] {
+					out.facts = append(out.facts, "other_session_reused_conn_of_A")
+				}
+			}
+		}
+		if actor == "A" {
+			nEpoch := len(m.epoch)
+			if v := m.step(op, resp, entries, held); v != nil {
+				out.res.Violation = fmt.Sprintf("step %d: %s", i, v.msg)
+				out.res.Features = v.feat
+				return out
+			}
+			if (op == "COMMIT" || op == "ROLLBACK") && nEpoch == 2 {
+				out.facts = append(out.facts, "two_slice_tx_ended_by_"+op)
+			}
+		} else {
+			if resp.Kind == "err" {
+				out.res.Violation = fmt.Sprintf("step %d %s: second session got error %d %s", i, op, resp.ErrCode, resp.ErrMsg)
+				out.res.Features = map[string]string{"kind": "unexpected_error", "event": op, "phase": phaseOf(m), "ks": fmt.Sprint(cfg.KS), "after": m.after}
+				return out
+			}
+		}
+		if i == len(hist)-1 {
+			last = stepOutcome(op, resp, entries)
+		}
+	}
+	out.res.Outcome = last
+	out.res.Key = canon(w, a, m)
+	return out
+}
+
+func stepOutcome(op string, resp sessrig.Resp, entries []sessrig.Entry) string {
+	set := map[string]bool{}
+	for _, e := range entries {
+		set[e.Op+"@"+e.Slice+"/"+e.Role+":"+e.Res] = true
+	}
+	ks := make([]string, 0, len(set))
+	for k := range set {
+		ks = append(ks, k)
+	}
+	sort.Strings(ks)
+	return op + "=" + resp.Kind + "[" + strings.Join(ks, ",") + "]"
+}
+
+// canon renders the state a future can depend on.
+//
+// Merging argument. Session A's future behaviour is a function of: its status bits
+// (autocommit / in-transaction), its savepoint list, which slices have an entry in txConns /
+// ksConns and the backend state (pool, closed, autocommit, in-tx) of those connections; the
+// second session's behaviour is a function of its pinned connections (keep-session) - it is
+// otherwise stateless between its autocommit statements. The fake pools hand out an idle
+// connection if there is one (always in reset state) or a new one, which behave alike, so
+// only the NUMBER of idle connections per pool is kept. The monitor's own memory (client
+// view ac/explicit, epoch leases) is part of the state because the verdict of a future step
+// depends on it. Lease / connection identities are renamed in order of first mention
+// (txConns by slice, ksConns by slice, epoch by slice); unreferenced outstanding leases are
+// kept as a sorted multiset of descriptors. Nothing else (ledger length, ids, step numbers)
+// influences later behaviour or later verdicts.
+func canon(w *sessrig.World, a *sessrig.Sess, m *monitor) string {
+	st := a.State()
+	names := map[int]string{}
+	name := func(lease int) string {
+		if n, ok := names[lease]; ok {
+			return n
+		}
+		n := fmt.Sprintf("c%d", len(names)+1)
+		names[lease] = n
+		return n
+	}
+	var sb strings.Builder
+	fmt.Fprintf(&sb, "ac=%v it=%v closed=%v sp=%v|mon ac=%v ex=%v after=%s|", st.AutoCommit, st.InTrans, st.Closed, st.Savepoints, m.ac, m.explicit, m.after)
+	desc := func(ci sessrig.ConnInfo) string {
+		return fmt.Sprintf("%s/g%d/%s cl=%v ac=%v tx=%v", ci.Slice, ci.Gen, ci.Role, ci.Closed, ci.AutoCom, ci.InTx)
+	}
+	referenced := map[int]bool{}
+	sb.WriteString("tx:")
+	for _, r := range st.TxConns {
+		ci, _ := w.InfoOf(r.Conn)
+		referenced[ci.Lease] = true
+		fmt.Fprintf(&sb, "%s=%s(%s out=%v);", r.Slice, name(ci.Lease), desc(ci), ci.Out)
+	}
+	sb.WriteString("|ks:")
+	for _, r := range st.KsConns {
+		ci, _ := w.InfoOf(r.Conn)
+		referenced[ci.Lease] = true
+		fmt.Fprintf(&sb, "%s=%s(%s out=%v);", r.Slice, name(ci.Lease), desc(ci), ci.Out)
+	}
+	sb.WriteString("|epoch:")
+	sl := make([]string, 0, len(m.epoch))
+	for s := range m.epoch {
+		sl = append(sl, s)
+	}
+	sort.Strings(sl)
+	for _, s := range sl {
+		fmt.Fprintf(&sb, "%s=%s;", s, name(m.epoch[s]))
+	}
+	var others []string
+	for _, ci := range w.Outstanding() {
+		if referenced[ci.Lease] {
+			continue
+		}
+		others = append(others, ci.Holder+":"+desc(ci))
+	}
+	sort.Strings(others)
+	fmt.Fprintf(&sb, "|out:%v|idle:", others)
+	idle := map[string]int{}
+	for _, ci := range w.Conns() {
+		if !ci.Out && !ci.Closed {
+			idle[ci.Pool]++
+		}
+	}
+	for _, k := range sessrig.SortedKeys(idle) {
+		fmt.Fprintf(&sb, "%s=%d;", k, idle[k])
+	}
+	return sb.String()
+}
+
+// ---- main ----
+
 func main() {
 	gx.Quiet()
-	f, _ := os.Create("/tmp/c18-smoke/cpu.prof")
-	pprof.StartCPUProfile(f)
-	t0 := time.Now()
-	n := 2000
-	for i := 0; i < n; i++ {
-		_, err := sessrig.New(sessrig.Config{KeepSession: i%2 == 0})
-		if err != nil {
-			panic(err)
+	r := ev.Start("C18", "model_checking")
+	var c kase
+	if r.ReplayCase(&c) {
+		o := replay(c.Cfg, c.Hist, true)
+		for _, t := range o.trace {
+			fmt.Printf("%-9s -> %-6s %v\n", t.Op, t.Resp, t.Led)
+		}
+		if o.res.Violation != "" {
+			r.Violation(ev.Witness{Summary: c.Cfg.String() + " " + strings.Join(c.Hist, ",") + ": " + o.res.Violation, Features: o.res.Features, Case: c})
+		}
+		r.Set("states", 1)
+		r.Set("transitions", len(c.Hist))
+		r.Set("traces_validated_against_impl", len(c.Hist))
+		r.Sample(c)
+		r.Finish()
+	}
+
+	depth := r.Pick(5, 7)
+	cfgs := []config{
+		{User: sessrig.UserRWS, KS: false}, {User: sessrig.UserRW, KS: false},
+		{User: sessrig.UserRWS, KS: true}, {User: sessrig.UserRW, KS: true},
+	}
+	var states, transitions int64
+	perCfg := map[string]interface{}{}
+	var mu sync.Mutex
+	facts := map[string]int{}
+	maxDepth := 0
+	for _, cfg := range cfgs {
+		cfg := cfg
+		spec := xstate.Spec[string]{
+			MaxDepth: depth,
+			Workers:  16,
+			Stop:     r.TimeUp,
+			Enabled:  func(h []string) []string { return alphabet },
+			Replay: func(h []string) xstate.Result {
+				o := replay(cfg, h, false)
+				mu.Lock()
+				for _, f := range o.facts {
+					facts[f]++
+				}
+				mu.Unlock()
+				if o.res.Key != "" {
+					r.Distinct("nontrivial", cfg.String()+"|"+o.res.Key)
+				}
+				return o.res
+			},
+			OnOutcome: func(o string) {
+				if o != "" {
+					r.Distinct("outcomes", cfg.String()+"|"+o)
+				}
+			},
+			OnViolation: func(h []string, res xstate.Result) {
+				// re-run 4 more times: the same history must fail identically
+				for i := 0; i < 4; i++ {
+					again := replay(cfg, h, false)
+					if again.res.Violation != res.Violation {
+						ev.Fatalf("nondeterministic verdict for %v %v: %q vs %q", cfg, h, res.Violation, again.res.Violation)
+					}
+				}
+				k := kase{Cfg: cfg, Hist: append([]string(nil), h...)}
+				res.Features["user"] = cfg.User
+				r.Violation(ev.Witness{Summary: cfg.String() + " " + strings.Join(h, ",") + ": " + res.Violation, Features: res.Features, Case: k})
+			},
+		}
+		t0 := time.Now()
+		st := xstate.BFS(spec)
+		fmt.Printf("%s: states=%d transitions=%d depth=%d frontier=%v violating=%d %.1fs\n", cfg, st.States, st.Transitions, st.MaxDepth, st.PerDepth, st.Violations, time.Since(t0).Seconds())
+		states += st.States
+		transitions += st.Transitions
+		if st.MaxDepth > maxDepth {
+			maxDepth = st.MaxDepth
+		}
+		perCfg[cfg.String()] = map[string]interface{}{"states": st.States, "transitions": st.Transitions, "depth": st.MaxDepth,
+			"frontier_per_depth": st.PerDepth, "violating_histories": st.Violations}
+		if st.Capped {
+			r.Capped(fmt.Sprintf("time budget hit in configuration %s at depth %d", cfg, st.MaxDepth))
+			break
 		}
 	}
-	fmt.Println(time.Since(t0)/time.Duration(n), "per world")
-	t0 = time.Now()
-	for i := 0; i < n; i++ {
-		w, err := sessrig.New(sessrig.Config{KeepSession: i%2 == 0})
-		if err != nil {
-			panic(err)
-		}
-		s := w.NewSession("A", sessrig.UserRWS)
-		for _, q := range []string{"begin", "insert into t1 values (1)", "update tbl_ks set a=1", "commit"} {
-			s.Query(q)
-		}
-		s.Disconnect()
+	// samples: a few written-out histories with the ledger they produced
+	for _, s := range []kase{
+		{cfgs[0], []string{"R0", "BEGIN", "W0", "WS", "B:WS", "COMMIT"}},
+		{cfgs[1], []string{"AC0", "W1", "SP", "RS", "RBTO", "ROLLBACK", "AC1"}},
+		{cfgs[2], []string{"W0", "START", "FU", "W1", "B:W0", "COMMIT"}},
+	} {
+		o := replay(s.Cfg, s.Hist, true)
+		r.Sample(map[string]interface{}{"cfg": s.Cfg, "hist": s.Hist, "trace": o.trace, "violation": o.res.Violation})
 	}
-	fmt.Println(time.Since(t0)/time.Duration(n), "per replay")
-	pprof.StopCPUProfile()
+	r.Set("states", states)
+	r.Set("transitions", transitions)
+	r.Set("traces_validated_against_impl", transitions)
+	r.Set("depth_bound", depth)
+	r.Set("depth_reached", maxDepth)
+	r.Set("alphabet", alphabet)
+	r.Set("per_configuration", perCfg)
+	r.Set("coverage_facts", facts)
+	r.Set("rule", "BFS over histories of <=depth commands from the alphabet, one search per configuration (user with/without rw-splitting x keep-session off/on); every history is replayed on fresh real Manager/Namespace/Session objects; states are merged by the canonical key (session status bits, savepoints, txConns/ksConns with renamed connection identities and backend state, monitor view, outstanding and idle connections per pool); distinct_nontrivial = distinct canonical states reached")
+	r.Assume("fake pools/connections model the backend: BEGIN/COMMIT/ROLLBACK/SET autocommit change the server-side transaction flags as MySQL does; pool.Put applies the real reset-on-put rule (rollback open transaction, autocommit back to 1)")
+	r.Assume("all backend calls answer ok (faults are C19's subject)")
+	// non-vacuity: the facts that make the oracle meaningful must have been observed
+	for _, f := range []string{"replica_read_outside_tx", "other_session_reused_conn_of_A", "two_slice_tx_ended_by_COMMIT", "two_slice_tx_ended_by_ROLLBACK"} {
+		if facts[f] == 0 && !r.TimeUp() {
+			ev.Fatalf("vacuous run: fact %q never observed", f)
+		}
+	}
+	r.Finish()
 }
